@@ -88,6 +88,11 @@ def record_plan(cfg):
                        nyq=(-1 if fj < fs / 2 else (0 if fj == fs / 2 else 1)))
             ev.append(evj)
         meta["nf"] = nf
+        # (evidence only) how many bins are in the unclamped log-spaced regime, evaluated in floating point
+        xovf = 1.0 - cfg["on"] / cfg["od"]
+        FL = 1.0 + xovf * (cfg["Kdes"] - 1)
+        meta["unclamped_bins"] = int(sum(1 for j in range(nf) if c["logsp"] and cfg["sched"] != "new" and float(f[j]) * N / fs * cval > FL * (1 + 2 ** -8)
+                                          and 1.0 / cval > bmin_f + 1 / 256 and max(1, e["Lmin"]) < int(L[j]) < N and int(K[j]) > 1))
         meta["bmin_branch_bins"] = int(sum(1 for j in range(nf) if float(b[j]) == bmin_f))
     except Exception as exc:
         meta["recorder_exception"] = f"{type(exc).__name__}: {exc}"
@@ -190,9 +195,9 @@ def model_constants(tier: str):
         "Olaps": Raw("{<<0,1>>,<<1,4>>,<<1,2>>,<<3,4>>,<<7,8>>,<<31,32>>}"),
         "Bmins": Raw("{<<1,1>>,<<3,2>>,<<2,1>>,<<7,2>>}"),
         "LminsOf(n)": Raw("{1, 2, 5, n \\div 2, (9 * n) \\div 10, n - 1, n}"),
-        "Jdess": Raw("{1,2,3}"),
+        "Jdess": Raw("{0,1,2,3}"),
         "Kdess": Raw("{1,2,5,40}"),
-        "Cs": Raw(f"{{<<n-2,2>> : n \\in 8..{nmax}}} \\cup {{<<1,1>>,<<2,1>>}}"),
+        "Cs": Raw(f"{{<<n-2,2>> : n \\in 8..{nmax}}} \\cup {{<<1,1>>,<<2,1>>,<<1,2>>,<<1,3>>,<<1,5>>}}"),
         "FDen": fden, "CapK": True, "EmitPlans": True,
     }
 
@@ -204,13 +209,15 @@ SCHED_INVARIANTS = ["TypeOK", "GridStartsAtBmin", "GridStepsByRes", "GridBelowNy
 
 def cfg_key(pj):
     c = pj["cfg"]
-    return (c["N"], tuple(c["olap"]), tuple(c["bmin"]), c["Lmin"], c["Jdes"], c["Kdes"])
+    return (c["N"], tuple(c["olap"]), tuple(c["bmin"]), c["Lmin"], c["Jdes"], c["Kdes"], tuple(c["c"]))
 
 
 def replay_group(item):
     """Runs in a worker.  item = (key, [variants]).  Returns list of (sched, field, detail)."""
     key, variants = item
-    N, olap, bmin, Lmin, Jdes, Kdes = key
+    N, olap, bmin, Lmin, Jdes, Kdes, cc = key
+    if Jdes == 0:                      # real-valued Jdes realising the model's rational log factor c < 1
+        Jdes = math.log(N / 2.0) / math.log(1.0 + cc[0] / cc[1])
     fs = 0.75 * N
     out = []
     todo = [("ltf", dict(bn=bmin[0], bd=bmin[1], Lmin=Lmin))]
